@@ -220,6 +220,16 @@ def check_store(ctx, fi, ev, tag, E, roots, vtag, preds):
 
 
 def run(ctx):
+  run_gate(ctx)
+  denominators(ctx)
+  # G6: the root routines guard zero eigenvalues / padding before taking negative powers (finite roots for
+  # matrix_epsilon == 0 and padded statistics) - shared with C01
+  from . import C01
+  C01.eigh_routine(ctx)
+  C01.siblings(ctx)
+
+
+def run_gate(ctx):
   m = ctx.model
   check_efficient_cond(ctx, 'C03.EC')
   sites = 0
@@ -261,7 +271,6 @@ def run(ctx):
         pass
   ctx.need('C03.G1', sites, 8, 'gated stores across modes/valuations')
   ctx.need('C03.G3', sentinel_paths, 3, 'non-refresh sentinel paths')
-  denominators(ctx)
 
 
 def _unelem(t):
